@@ -258,7 +258,7 @@ def shrink(ctx, req, still_fails, budget=40):
 
 
 def method_check(ctx, col, gens, n_quick, n_thorough, rule, agree_col='agree', agree_scope=None,
-                 finding_facts=None, code2_finding=None, excuse=None, search_gens=None, also_cols=(), extra_corr=None):
+                 finding_facts=None, code2_finding=None, excuse=None, search_gens=None, also_cols=(), extra_corr=None, spec_determines=None):
     """gens: list of (weight, generator(rnd) -> request). col: checker column name.
     agree_col: which correspondence column ties the model to the code for this property."""
     pid = ctx.pid
@@ -328,6 +328,15 @@ def method_check(ctx, col, gens, n_quick, n_thorough, rule, agree_col='agree', a
                               {'request': req, 'response': res.get('resp') or res.get('err'), 'final_state': res.get('evalInput'),
                                'checker': 'Check/%s.v' % col[:3]}, {'method': req.get('preferenceFunction')})
                 break
+    if broken and spec_determines and not any(vv[2] for vv in ctx.violations):
+        # the specification determines the response (uniqueness theorem named in spec_determines): a response that differs from
+        # the one computed by the specification on the same request and the same seeded draws is not the specified one
+        cand = [b for b in broken if b[2][0] == 3 and not e2e.enabled_biases(b[0])] or [b for b in broken if b[2][0] == 3]
+        if cand:
+            req, res, v = cand[0]
+            model = core.eval_term(pid + 'm', 'decide %s %s' % (e2e.env_for(ctx.pipe, req), emit.crequest(req)))
+            ctx.violation('the response is not the one the specification determines (%s)' % spec_determines,
+                          {'request': req, 'response': res.get('resp'), 'specified': model[:6000]}, {'method': req.get('preferenceFunction')})
     if broken and not any(vv[2] for vv in ctx.violations):
         req, res, v = broken[0]
         model = core.eval_term(pid + 'm', 'decide %s %s' % (e2e.env_for(ctx.pipe, req), emit.crequest(req)))
@@ -495,7 +504,8 @@ def c11(ctx):
     return method_check(
         ctx, 'C11', [(2, gen_method('majorityHeuristic')), (1, (lambda rnd: gen.biased_request(rnd, method='majorityHeuristic', prob_mix=False)))], 300, 6000,
         'random majority requests: all four draw policies, seeded order, three positions of currentChoice, value ties within 1e-6, '
-        'equal and mixed weights', agree_col='agree')
+        'equal and mixed weights', agree_col='agree',
+        spec_determines='Properties/C11.v: majority_is_tournament - the tournament over the search order, current choice first, is a function of the request and its seeded draws')
 
 
 @check('C12')
@@ -504,7 +514,8 @@ def c12(ctx):
         ctx, 'C12', [(2, gen_method('aspectEliminationHeuristic')), (1, (lambda rnd: gen.biased_request(rnd, method='aspectEliminationHeuristic', prob_mix=False)))], 300, 6000,
         'random aspect-elimination requests: explicit thresholds and both generated series (dyadic parameters landing on bounds), '
         'gain and cost criteria, shuffled order, single alternatives; correspondence claimed for pairwise distinct weights',
-        agree_col='agree', excuse=not_tied_aspect)
+        agree_col='agree', excuse=not_tied_aspect,
+        spec_determines='Properties/C12.v: elimination_deterministic, aspect_is_elimination_distinct - for pairwise distinct weights the elimination walk determines survivors and eliminations')
 
 
 @check('C13')
@@ -527,7 +538,8 @@ def c13(ctx):
         ctx, 'C13', [(2, gen_method('satisfactionHeuristic')), (1, (lambda rnd: gen.biased_request(rnd, method='satisfactionHeuristic', prob_mix=False))),
                      (0.3, many_at_one_level)], 300, 6000,
         'random satisfaction requests: currentChoice absent / considered / known-only, explicit thresholds and both generated series, '
-        'levels nobody meets, cost criteria, shuffled order, now and then 13-22 alternatives', agree_col='agree', also_cols=('C13order',))
+        'levels nobody meets, cost criteria, shuffled order, now and then 13-22 alternatives', agree_col='agree', also_cols=('C13order',),
+        spec_determines='Properties/C13.v: satisfaction_spec_complete - the specification determines the ranking uniquely')
 
 
 # -------------------------------------------------------------------------------------------------
@@ -1011,6 +1023,16 @@ def c08(ctx):
                 if f3 != fired[i] and not mix:
                     ctx2.violation('whether the bias at enabled position %d fires depends on the other biases' % i,
                                    {'request': req, 'changed': r3, 'fired': fired, 'other': o3['resp']['biases']}, {})
+            # (d) a bias that cannot fire, appended after the others, changes nothing: same result, same echoes before it
+            r5 = json.loads(json.dumps(req))
+            nb5 = gen.gen_bias(rnd, rnd.choice(gen.BIASES), r5, len(r5['criteria']))
+            nb5['applyProbability'] = 0.0
+            r5['biases'] = list(r5['biases']) + [nb5]
+            o5 = ctx2.pipe.call({'op': 'decide', 'req': r5})
+            ctx2.count('metamorphic/never-firing-appended')
+            if not o5.get('ok') or o5['resp']['result'] != base['resp']['result'] or o5['resp']['biases'][:len(en)] != base['resp']['biases']:
+                ctx2.violation('a bias that does not fire (applyProbability 0, appended last) changes the response',
+                               {'request': req, 'with_unfired': r5, 'response': base.get('resp'), 'other': o5.get('resp') or o5.get('err')}, {})
             # (c) monotone in its own probability; 0 never, 1 always
             for p, must in ((0.0, False), (1.0, True)):
                 r4 = json.loads(json.dumps(req))
@@ -1432,6 +1454,38 @@ def c02(ctx):
     # after any other requests: short histories (same-method parameter variants over-weighted) against a process that served nothing else
     if not ctx.replay:
         history_runs(ctx, n_cases(ctx, 30, 600), modes=('fresh',))
+    # goroutine scheduling: requests of one method with different seeds / options served at the same time by one process must get the
+    # answers they get alone (the heuristics with seeded draws over-weighted)
+    if not ctx.replay:
+        for _ in range(n_cases(ctx, 24, 300)):
+            m = rnd.choice(['majorityHeuristic', 'majorityHeuristic', 'majorityHeuristic', 'aspectEliminationHeuristic', 'satisfactionHeuristic', 'owa', 'electreIII'])
+            base = [gen.heuristic_request(rnd, m, n_alts=rnd.choice([6, 8, 10, 12])) if m in gen.HEURISTICS else gen.any_request(rnd, m) for _ in range(3)]
+            for r in base:
+                if m == 'majorityHeuristic':
+                    r['methodParameters']['drawResolution'] = rnd.choice(['random', 'random', 'newer', 'current', 'allow'])
+                    r['methodParameters']['randomSeed'] = rnd.randint(0, 10 ** 6)
+                    r['methodParameters']['weights'] = {c['id']: 1.0 for c in r['criteria']}     # many draws
+            alone = {}
+            for r in base:
+                fp = core.Pipe(ctx.binary)
+                alone[json.dumps(r, sort_keys=True)] = fp.call({'op': 'decide', 'req': r})
+                fp.close()
+            batch = [rnd.choice(base) for _ in range(32)]
+            pp = core.Pipe(ctx.binary, mem_kb=64 * 1024 * 1024)
+            out = pp.call({'op': 'conc', 'reqs': batch}, timeout=120)
+            pp.close()
+            ctx.count('concurrent-batches')
+            ctx.evaluations += 1
+            if not out.get('ok'):
+                ctx.violation('the process died or hung while serving concurrent requests', {'batch': batch, 'answer': out}, {})
+                continue
+            for r, got in zip(batch, out['results']):
+                want = alone[json.dumps(r, sort_keys=True)]
+                if got.get('ok') != want.get('ok') or (got.get('ok') and got.get('resp') != want.get('resp')):
+                    ctx.violation('the answer to a request depends on which other requests are served at the same time',
+                                  {'batch': batch, 'request': r, 'alone': want.get('resp') or want.get('err'),
+                                   'concurrent': got.get('resp') or got.get('err')}, {'method': r.get('preferenceFunction')})
+                    break
     # the model (a function of the request and of the streams of its seeds) agrees with the service
     sub = [r for r in reqs if True][:n_cases(ctx, 60, 600)]
     ress, verd, logs = e2e.run_all(ctx.pipe, sub, 'C02')
@@ -1616,6 +1670,9 @@ def c10(ctx):
                 bad = json.loads(json.dumps(base[0]))
                 bad['choseToMake'] = bad['choseToMake'] + ['no-such-alternative']
                 base.append(bad)
+                # and requests that are rejected only while the biases or the method run (one of them: nothing chosen)
+                late = late_rejections(rnd, base[0])
+                base += [r for _, r in rnd.sample(late, min(2, len(late)))] + [r for n_, r in late if n_.startswith('nothing chosen')]
             batch = [rnd.choice(base) for _ in range(k)]
             seq = {}
             for r in base:
@@ -1673,6 +1730,7 @@ def late_rejections(rnd, req):
     if req['preferenceFunction'] == 'electreIII':
         mod('superfluous electre criterion', lambda r: r['methodParameters']['electreCriteria'].update(
             zz_undeclared={'k': 1.0, 'q': {'a': 0, 'b': 1.0}, 'p': {'a': 0, 'b': 2.0}}))
+    mod('nothing chosen (choseToMake empty)', lambda r: r.update(choseToMake=[]))
     mod('huge value on one alternative', lambda r: r['knownAlternatives'][rnd.randrange(n)]['criteria'].update({r['criteria'][0]['id']: 1e300}))
     # values whose aggregate leaves the finite range: the decision may hold +Inf / NaN, which JSON cannot carry
     mod('values near the largest finite number on one alternative',
@@ -1720,6 +1778,12 @@ def invalid_variants(rnd, req):
         mod('electre thresholds not increasing', lambda r: r['methodParameters']['electreCriteria'][c0].update(q={'a': 0, 'b': 2.0}, p={'a': 0, 'b': 1.0}))
         mod('electre veto below preference', lambda r: r['methodParameters']['electreCriteria'][c0].update(p={'a': 0, 'b': 2.0}, v={'a': 0, 'b': 1.5}))
         mod('electre criterion without parameters', lambda r: r['methodParameters']['electreCriteria'].pop(c0))
+        mod('electre veto below indifference, no preference threshold',
+            lambda r: r['methodParameters']['electreCriteria'].__setitem__(c0, {'k': 1.0, 'q': {'a': 0, 'b': 5.0}, 'v': {'a': 0, 'b': 3.0}}))
+        mod('electre veto equal to indifference, no preference threshold',
+            lambda r: r['methodParameters']['electreCriteria'].__setitem__(c0, {'k': 1.0, 'q': {'a': 0, 'b': 5.0}, 'v': {'a': 0, 'b': 5.0}}))
+        mod('electre veto below indifference, linear preference threshold',
+            lambda r: r['methodParameters']['electreCriteria'].__setitem__(c0, {'k': 1.0, 'q': {'a': 0, 'b': 5.0}, 'p': {'a': 0.1, 'b': 0}, 'v': {'a': 0, 'b': 3.0}}))
         mod('electre distillation function negative on [0,1]', lambda r: r['methodParameters'].update(electreDistillation={'a': -0.2, 'b': 0.1}))
     if m == 'majorityHeuristic':
         mod('unknown draw policy', lambda r: r['methodParameters'].update(drawResolution='noSuchPolicy'))
@@ -1889,7 +1953,7 @@ def c20(ctx):
             ctx.sample({'valid_request': req, 'status': st}, limit=1)
             inv = invalid_variants(rnd, req)
             chosen = inv if not ctx.quick else rnd.sample(inv, min(len(inv), 14))
-            chosen = chosen + [x for x in inv if x[0].startswith('electre distillation') and x not in chosen]
+            chosen = chosen + [x for x in inv if x[0].startswith('electre ') and x not in chosen]
             for name, r in chosen:
                 st2, j2 = shot(json.dumps(r).encode(), name, 400, r)
                 ctx.signatures.add(('invalid', name, m, st2))
